@@ -255,7 +255,12 @@ pub fn reverse_position_reply(
         swap.trader.clone(),
     )?;
 
-    let previous_margin = Integer::new_negative(position.margin);
+    // funding owed by the position that is being closed by this reversal
+    let RemainMarginResponse {
+        funding_payment, ..
+    } = calc_remain_margin_with_funding_payment(deps.as_ref(), position.clone(), Integer::zero())?;
+
+    let previous_margin = Integer::new_negative(position.margin).checked_add(funding_payment)?;
 
     // reset the position in order to reverse
     position = clear_position(env, position)?;
